@@ -76,7 +76,10 @@ func (c *Ctx) liveAccesses() []fieldAccess {
 	return out
 }
 
-func (c *Ctx) guardedByRule() {
+func (c *Ctx) guardedByRule() { c.guardedByInfer(true) }
+
+// guardedByInfer infers the guarded-by table (c.guarded); with report it also emits the G1 obligations.
+func (c *Ctx) guardedByInfer(report bool) {
 	acc := c.liveAccesses()
 	r := c.Roles()
 	cons := c.constructionFns()
@@ -142,6 +145,9 @@ func (c *Ctx) guardedByRule() {
 		}
 		nGuarded++
 		c.guarded[k] = best
+		if !report {
+			continue
+		}
 		if why, ok := writeOnce[k]; ok {
 			c.R.Ok(ruleG1, k+":guarded-by("+short2(best)+")", "", "write-once exception: "+why)
 			continue
@@ -169,6 +175,9 @@ func (c *Ctx) guardedByRule() {
 			sort.Strings(bad)
 			c.R.Bad(ruleG1, k+":guarded-by("+short2(best)+")", c.P.InstrPos(first), fmt.Sprintf("%s is accessed under %s at %d of %d sites, but: %s", k, best, bn, len(as), strings.Join(bad, "; ")))
 		}
+	}
+	if !report {
+		return
 	}
 	c.R.Count("fields guarded by a lock (inferred)", nGuarded)
 	c.R.Count("fields immutable after construction", nImm)
